@@ -1156,6 +1156,40 @@ class SGen:
         self.feats |= {"if", "if:then_only", "if:else_less_overwrite_after_branch", "literal:promoted"} | ({"for"} if first_is_loop else {"if:both_existing"})
         return stmts
 
+    def gen_loop_bound_reassigned(self, env):
+        """Template:  nb = op.Constant(value_int=k0); s = x * 1.0
+                      if c: nb = op.Constant(value_int=k1); s = x + 1.0
+                      for i in range(nb): s = s + 1.0
+        The trip count is re-assigned in a branch just before the loop whose header is its only reader."""
+        fl = [n for n, v in env.items() if isinstance(v, np.ndarray) and v.dtype in (np.float32, np.float64) and n not in self.frozen
+              and not n.startswith("tmp") and 1 <= v.size <= 64]
+        fresh = [v for v in VARS if v not in env and v not in self.frozen]
+        if not fl or len(fresh) < 2 or "i" in env or "i" in self.frozen:
+            return None
+        x = self.pick(fl)
+        nb, acc = fresh[0], fresh[1]
+        self.uses_op = True
+        sx = float(np.sum(env[x].astype(np.float64)))
+        if not np.isfinite(sx):
+            return None
+        t = float(np.float32(sx + self.pick([-1.0, 1.0])))
+        stmts = [Assign([nb], Call("Constant", [], {"value_int": self.pick([1, 2])})), Assign([acc], Bin("*", Var(x), Lit(1.0))),
+                 If(Bin(">", Call("ReduceSum", [Var(x)], {"keepdims": 0}), Lit(t)),
+                    [Assign([nb], Call("Constant", [], {"value_int": self.pick([3, 0, 4])})), Assign([acc], Bin("+", Var(x), Lit(1.0)))], []),
+                 For("i", Var(nb), [Assign([acc], Bin("+", Var(acc), Lit(1.0)))])]
+        try:
+            it = self.interp()
+            with np.errstate(all="ignore"):
+                for st_ in stmts:
+                    it.stmt(st_, env)
+        except (InterpError, KeyError, ValueError, TypeError, IndexError):
+            return None
+        if not isinstance(env.get(acc), np.ndarray) or not np.all(np.isfinite(env[acc])):
+            return None
+        env.pop("i", None)
+        self.feats |= {"if", "if:then_only", "for", "loop:tensor_bound", "loop:bound_reassigned_in_branch_before_loop", "literal:promoted"}
+        return stmts
+
     def gen_compound(self, env, must_preserve=(), only_existing=False):
         """Generate a compound statement on a copy of env; commit only on success, and only names that Python AND the
         converter both keep in scope afterwards (pre-existing names, names assigned on every path)."""
@@ -1163,7 +1197,7 @@ class SGen:
         if self.depth == 0 and not only_existing and self.chance(1):
             k = "nest3"
         elif self.depth == 0 and not only_existing and self.chance(1):
-            k = "ovw"
+            k = self.pick(["ovw", "lb"])
         saved = set(self.frozen)
         work = dict(env)
         feats_before = set(self.feats)
@@ -1172,6 +1206,8 @@ class SGen:
                 r = self.gen_nested_last_hit(work)
             elif k == "ovw":
                 r = self.gen_overwrite_after_branch(work)
+            elif k == "lb":
+                r = self.gen_loop_bound_reassigned(work)
             elif k == "if":
                 r = self.gen_if(work, only_existing)
             elif k == "for":
